@@ -26,6 +26,7 @@ treadmill function that made the offending link, plus the handler it was called
 from).
 """
 import collections
+import copy
 import errno
 import io
 import json
@@ -428,20 +429,26 @@ class NodeWorld:
     """One treadmill root directory + one AppCfgMgr process + the queues of
     the dirwatcher and of the tombstone monitor."""
 
-    def __init__(self, cfg):
+    _SAVED = ('cache', 'bad', 'nextgen', 'cache_ident', 'cname', 'ready',
+              'fifo', 'tombs', 'link_seq', 'link_site', 'viol', 'stats',
+              'crashes')
+
+    def __init__(self, cfg, token=None):
+        """A fresh world, or (token) the world saved by checkpoint()."""
         global _CUR  # pylint: disable=global-statement
         if RUN_ROOT is None:
             raise statex.HarnessError('run root not set')
         self.cfg = cfg
         self.salt = cfg['salt']
-        self.viol = []
-        self.stats = collections.Counter()
         self.root = os.path.join(RUN_ROOT, 'p%d' % os.getpid())
-        shutil.rmtree(self.root, ignore_errors=True)
         _CUR = None
-        for d in ('apps', 'cache', 'running', 'cleanup', 'cleaning',
-                  'cleanup_apps', 'appevents', 'tombstones/running'):
-            os.makedirs(os.path.join(self.root, d))
+        shutil.rmtree(self.root, ignore_errors=True)
+        if token is None:
+            for d in ('apps', 'cache', 'running', 'cleanup', 'cleaning',
+                      'cleanup_apps', 'appevents', 'tombstones/running'):
+                os.makedirs(os.path.join(self.root, d))
+        else:
+            shutil.copytree(token['tree'], self.root, symlinks=True)
         self.apps_dir = os.path.join(self.root, 'apps')
         self.cache_dir = os.path.join(self.root, 'cache')
         self.running_dir = os.path.join(self.root, 'running')
@@ -456,14 +463,19 @@ class NodeWorld:
         self.fifo = []               # [(kind, basename)] dirwatch queue
         self.tombs = []              # [(key, signal)] tombstones not yet processed
         # instrumentation
+        self.viol = []
+        self.stats = collections.Counter()
         self.link_seq = 0
         self.link_site = {}          # link path -> (seq, site)
+        self.crashes = []
+        if token is not None:
+            for k in self._SAVED:
+                setattr(self, k, copy.deepcopy(token['fields'][k]))
         self.removals = []
         self.configure_calls = []
         self.in_sync = False
         self.sync_order = []
         self.actor = 'harness'
-        self.crashes = []
         self.harness_error = None
         self.crash_at = 0
         self.linkops = 0
@@ -472,8 +484,28 @@ class NodeWorld:
         self.mgr = None
         self.tm_env = None
         self.new_manager()
+        if token is not None:
+            self.mgr._is_active = token['active']  # pylint: disable=W0212
         self.cleaner = tm_cleanup.Cleanup(self.tm_env)
         self.monitor = tm_monitor.MonitorContainerCleanup(self.tm_env, {})
+
+    def checkpoint(self):
+        """Save the directory tree and the harness/manager fields.  Used only
+        to derive the successors of a replay-built state without replaying
+        its history once per successor (cross-checked against full replay)."""
+        global _CUR  # pylint: disable=global-statement
+        tree = self.root + '.ck'
+        saved = _CUR
+        _CUR = None
+        try:
+            shutil.rmtree(tree, ignore_errors=True)
+            shutil.copytree(self.root, tree, symlinks=True)
+        finally:
+            _CUR = saved
+        return {'tree': tree,
+                'fields': {k: copy.deepcopy(getattr(self, k))
+                           for k in self._SAVED},
+                'active': self.mgr._is_active}  # pylint: disable=W0212
 
     # -- processes ----------------------------------------------------------
     def new_manager(self):
@@ -948,7 +980,13 @@ class NodeWorld:
         cfg = self.cfg
         menu = []
         snap = self.prev or self.snapshot()
-        nows = (1, 0) + tuple(range(2, 2 + cfg.get('crash_points', 0)))
+        # Pruned: transitions that cannot change anything but the order of
+        # no-op notifications (an inactive manager ignores instance events, an
+        # active one ignores a touched .ready); crash points only where the
+        # delivery can reach a link operation.
+        active = self.mgr._is_active  # pylint: disable=protected-access
+        crash = tuple(range(2, 2 + cfg.get('crash_points', 0)))
+        nows = (1, 0) + (crash if active else ())
         for key in cfg['keys']:
             if key in self.cache:
                 for now in nows:
@@ -961,16 +999,21 @@ class NodeWorld:
                 for bad in cfg['bad'].get(key, (0,)):
                     for now in nows:
                         menu.append(('put', key, bad, now))
-        for now in nows:
-            menu.append(('rdy', 1, now))
-        if self.ready:
+        if not (self.ready and active):
+            for now in (1, 0) + (() if active else crash):
+                menu.append(('rdy', 1, now))
+        if self.ready and (active or self.fifo):
             for now in (1, 0):
                 menu.append(('rdy', 0, now))
         if self.fifo:
             menu.append(('dlv',))
-            for k in range(1, 1 + cfg.get('crash_points', 0)):
-                menu.append(('dlv', k))
-        menu.append(('rst',))
+            head = self.fifo[0]
+            if (head[1] == READY and head[0] != 'deleted' and not active) \
+                    or (head[1] != READY and active):
+                for k in range(1, 1 + cfg.get('crash_points', 0)):
+                    menu.append(('dlv', k))
+        if active or self.fifo:
+            menu.append(('rst',))
         for key in cfg['keys']:
             name = INSTANCE[key]
             tgt = snap.running.get(name)
